@@ -98,6 +98,11 @@ def main(run):
     if want(run, 'P'):
       with anchored(run, 'C10/P'):
         run_cases(run, 'contracts.pack', engine='X/P')
+    if want(run, 'F'):
+      with anchored(run, 'C10/F'):
+        # the observables of this property are (or read) memoised values: no covered mutator leaves one of them stale (engine F restricted to the keys these observables read)
+        from checks.fpart import run_F
+        run_F(run, entry_points=['pack', '_cis_trans_count', '_stereo_cis_trans_centers', '_stereo_cis_trans_counterpart', '_stereo_allenes_terminals', '_stereo_cis_trans_terminals'])
     bounded_part(run, 'C10')
     run.assume('Cython lowers the constructs as described in DESIGN §1.4; C integer conversions wrap at stores; intermediate values stay inside C int '
                '(checked by the L6 obligations for the section arithmetic)',
